@@ -5,7 +5,7 @@
 set -u
 PATCH="$(readlink -f "$1")"; PROP="$2"; TIER="${3:-quick}"
 D="$(mktemp -d /var/tmp/verif-mut-XXXXXX)"
-trap 'rm -rf "$D"; T=$(echo "$D" | md5sum | cut -c1-8); rm -f /verif/.build/simcheck.$T /verif/.build/alt.$T.mod /verif/.build/alt.$T.sum' EXIT
+trap 'rm -rf "$D"; T=$(echo "$D" | md5sum | cut -c1-8); rm -f /verif/.build/simcheck.$T /verif/.build/alt.$T.mod /verif/.build/alt.$T.sum /verif/.build/simcheck-y.$T /verif/.build/y.$T.mod /verif/.build/y.$T.sum /verif/.build/y.$T.lock' EXIT
 rsync -a --exclude .git /repo/ "$D/"
 if ! (cd "$D" && patch -p1 -s < "$PATCH"); then echo "RESULT $1 $PROP patch-failed"; exit 3; fi
 export GOFLAGS=-mod=mod GOPROXY=off GOSUMDB=off GOTOOLCHAIN=local
